@@ -87,7 +87,7 @@ var Check = &vrt.Check{
 		"callsigns have no leading/trailing white space in the sense of strings.TrimSpace (the listener trims the callsign line, so such a callsign is not representable)",
 		"stream equality is decided after TCP half-close on content and byte counts only; the proxy's pauses and idle flush only choose which segmentation is realised",
 		"dialler-side coalescing (payload in the same segment as the password prompt) needs a server that does not wait for the password reply; the package's own listener always waits, so this is outside the property ('dialling a listener of this package'): the eager-server leg only judges that the login lines arrive unmodified and counts what happens to early server bytes (the dialler currently loses them - noted in DESIGN.md, neither a finding nor fixed)",
-		"deadline clause: 'returned in time' means returned within deadline + 10 s in at least one of three attempts (a hung dial never returns; the slack only absorbs machine load); cancellation without a deadline is not demanded",
+		"deadline clause: 'returned in time' means returned within deadline + 10 s in at least one of three attempts (a hung dial never returns; the slack only absorbs machine load); cancellation without a deadline is not demanded; a second, sharper verdict needs no slack: a dial that returns more than 500 ms after its deadline in three attempts out of three, each time while a control timer set for the same instant fired less than 100 ms late, waits beyond its deadline by itself",
 		"real kernel segmentation is influenced (TCP_NODELAY, one write per planned segment, pauses), not controlled",
 	},
 	SelfTest:        tcpx.SelfTest,
@@ -996,7 +996,7 @@ func runDeadline(o *vrt.Obs, p params) {
 		took time.Duration
 	}
 	const attempts = 3
-	late := 0
+	late, overruns := 0, 0
 	for a := 0; a < attempts; a++ {
 		h, err := startHostile(p.Kind)
 		if err != nil {
@@ -1011,6 +1011,12 @@ func runDeadline(o *vrt.Obs, p params) {
 		}
 		doDial, _ := prepDial(p.API, h.addr(), call, string(p.PW), d)
 		t0 := time.Now()
+		// a control timer set for the same deadline at the same moment: how late IT fires is how late the machine is
+		ctrl := make(chan time.Duration, 1)
+		go func() {
+			time.Sleep(d)
+			ctrl <- time.Since(t0) - d
+		}()
 		go func() {
 			c, err := doDial()
 			done <- dialOut{c, err, time.Since(t0)}
@@ -1035,6 +1041,30 @@ func runDeadline(o *vrt.Obs, p params) {
 			case <-time.After(30 * time.Second):
 			}
 			continue
+		}
+		// returned within the slack - but clearly after the deadline while the control timer was on time? The slack is there
+		// for a loaded machine; a dial that is more than half a second late while a timer set for the same instant fired
+		// within 100 ms was not held up by the machine. Only three such attempts in a row are a verdict.
+		if over := out.took - d; over > 500*time.Millisecond {
+			var ctrlLate time.Duration
+			select {
+			case ctrlLate = <-ctrl:
+			case <-time.After(deadlineSlack):
+				ctrlLate = deadlineSlack
+			}
+			if ctrlLate < 100*time.Millisecond {
+				overruns++
+				o.Count("dial_returned_over_500ms_late_while_the_control_timer_was_on_time", 1)
+				if out.conn != nil {
+					out.conn.Close()
+				}
+				if overruns == attempts {
+					o.Violate("deadline-overrun:"+p.Kind, "%s against a %q server with a deadline of %v returned %v after the deadline in %d of %d attempts, each time while a timer set for the same deadline fired on time (< 100 ms late): the dial itself waits beyond its deadline (last error: %v)",
+						p.API, p.Kind, d, over.Round(time.Millisecond), overruns, attempts, out.err)
+					return
+				}
+				continue
+			}
 		}
 		// the dial call returned in time
 		o.Count("deadline_dials_returned", 1)
@@ -1066,6 +1096,6 @@ func runDeadline(o *vrt.Obs, p params) {
 		}
 		return
 	}
-	o.Violate("deadline-ignored:"+p.Kind, "%s against a %q server with a deadline of %v had not returned %v after the deadline in %d of %d attempts (it returned only when the server was torn down)",
-		p.API, p.Kind, d, deadlineSlack, late, attempts)
+	o.Violate("deadline-ignored:"+p.Kind, "%s against a %q server with a deadline of %v had not returned %v after the deadline in %d of %d attempts (it returned only when the server was torn down; %d further attempt(s) returned more than 500 ms late while a control timer was on time)",
+		p.API, p.Kind, d, deadlineSlack, late, attempts, overruns)
 }
